@@ -136,6 +136,15 @@ class C19(Check):
         return self.tmp
 
     def generate(self, rng, tier, shard, nshards):
+        # the file-name classes (common.FILE_NAME_CLASSES) are taken in turn by the cases that write to a path
+        turn = shard
+        for case in self._gen_cases(rng, tier, shard, nshards):
+            if case.get('mode') == 'path':
+                case = dict(case, fsel=turn)
+                turn += 1
+            yield case
+
+    def _gen_cases(self, rng, tier, shard, nshards):
         n = 150 if tier == 'quick' else 10 ** 7
         comps = [None, 'gzip', 'zstd']
         modes = ['stream', 'reframed', 'path', 'fileobj', 'open_obj', 'whole']
@@ -234,7 +243,7 @@ class C19(Check):
             size = None
             if mode == 'path':
                 from ..common import file_path
-                path = file_path(self._tmpdir(), 'f.json', '.json', case['objs']['oseed'] // 7, out)
+                path = file_path(self._tmpdir(), 'f.json', '.json', case.get('fsel', 0), out)
                 if os.path.exists(path):
                     os.unlink(path)
                 prior = case['objs']['oseed'] % 3
